@@ -624,6 +624,9 @@ func c14Worker(w *core.WorkerCtx) {
 	if w.Batch == 4 || (w.Thorough() && w.Batch%40 == 4) {
 		c14RealTransport(w)
 	}
+	if w.Batch == 5 || (w.Thorough() && w.Batch%40 == 5) {
+		c14ServedByGossiper(w)
+	}
 	if w.Batch == 1 || (w.Thorough() && w.Batch%40 == 1) {
 		c14DroppedTip(w)
 	}
